@@ -8,6 +8,21 @@ use serde_json::{json, Map, Value};
 use std::io::{self, BufRead, Write};
 use std::panic::{self, AssertUnwindSafe};
 
+/// Loads the descriptions the way an embedder reading one metatypes file after the other does.
+fn extend_in_batches(data: &mut ModuleData, classes: Vec<metatype::Class>, batches: usize) {
+    if batches <= 1 || classes.len() <= 1 {
+        data.extend(classes);
+        return;
+    }
+    let per = (classes.len() + batches - 1) / batches;
+    let mut rest = classes;
+    while !rest.is_empty() {
+        let tail = rest.split_off(per.min(rest.len()));
+        data.extend(rest);
+        rest = tail;
+    }
+}
+
 #[derive(Deserialize)]
 struct ModuleSpec {
     name: String,
@@ -27,6 +42,9 @@ struct Job {
     modules: Vec<ModuleSpec>,
     #[serde(default)]
     enums: Vec<metatype::Enum>,
+    /// the classes of a module are handed to ModuleData::extend() in this many consecutive batches (0/1 = all at once)
+    #[serde(default)]
+    batches: usize,
     /// class names to query (may include names that are not classes)
     subjects: Vec<String>,
     #[serde(default)]
@@ -73,7 +91,8 @@ pub fn cmd_typequery(args: &[String]) -> io::Result<()> {
 fn run_job(job: Job) -> Value {
     let mut type_map = TypeMap::with_primitive_types();
     let mut module_data = ModuleData::with_builtins();
-    module_data.extend(job.classes);
+    let batches = job.batches;
+    extend_in_batches(&mut module_data, job.classes, batches);
     module_data.extend(job.enums);
     let module_id = ModuleId::Named("vf");
     type_map.insert_module(module_id, module_data);
@@ -83,7 +102,7 @@ fn run_job(job: Job) -> Value {
         for i in &m.imports {
             data.import_module(ModuleId::Named(i));
         }
-        data.extend(m.classes);
+        extend_in_batches(&mut data, m.classes, batches);
         type_map.insert_module(ModuleId::Named(&m.name), data);
     }
     let module = type_map.get_module(module_id).unwrap();
